@@ -49,7 +49,7 @@ TInit == /\ l = 1 /\ scen = Dummy /\ state = InitState(Dummy) /\ ob = EmptyObs /
          /\ viol = {} /\ out = <<>> /\ cnt = [traces |-> 0, conforming |-> 0, steps |-> 0]
 
 ScenOf(e) == [pages |-> e.pages, q |-> e.q, kind |-> e.kind, fail |-> e.fail, mode |-> e.mode, start |-> e.start,
-              plan |-> <<e.stop>>]
+              plan |-> <<e.stop>>, fkind |-> e.fkind]
 
 ObsAfter(o, e) ==
   CASE e.ev = "req" -> [o EXCEPT !.reqs = Append(@, e.tok),
@@ -66,6 +66,8 @@ ObsAfter(o, e) ==
 \* ---- conformance: the machine's own successor functions
 Silent(tc, x) ==
   PrefetchTriggerF(tc, x) \cup SwitchPageF(tc, x) \cup
+  \* a fetch on a lost pinned connection makes no request: nothing is logged for it
+  (IF Lost(tc) THEN {y \in FetchOnceF(tc, x) : y.nx = "error"} ELSE {}) \cup
   (IF tc.kind = "SliceMap" THEN ConsumeRowF(tc, x) \cup EndF(tc, x) ELSE {})
 RECURSIVE Clo(_, _)
 Clo(tc, S) == LET T == S \cup UNION {Silent(tc, x) : x \in S} IN IF T = S THEN S ELSE Clo(tc, T)
@@ -83,6 +85,7 @@ EvSucc(tc, x, e, nrep) ==
                       ELSE EndF(tc, x)) : tc.mode = "manual" => y.exposed = e.exposed}
          ELSE IF e.normal = 2 THEN AbandonF(tc, x)       \* the caller stopped and closed the iterator
          ELSE (IF e.normal = 0 /\ x.st = "failed" /\ x.err = e.errpage THEN {x} ELSE {})
+    [] e.ev = "retry" -> {x}      \* the failed page asked for again on a RetryPolicy's verdict: C13's, nothing for the iterator
     [] OTHER -> {}
 
 Explain(tc, S, e, nrep) == UNION {EvSucc(tc, x, e, nrep) : x \in Clo(tc, S)}
@@ -104,6 +107,8 @@ AlteredKind(o) ==
 \* the node decodes every request field by field in the order of the protocol specification; a request it cannot
 \* decode that way (or whose paging state is not one it issued) is logged with token -1
 Refine(o, k) == IF k = "request-altered" THEN AlteredKind(o)
+                ELSE IF k = "request-state-wrong" /\ \E j \in 1 .. Len(o.reqs) : o.reqs[j] = -3
+                     THEN "paging-state-presented-to-another-node"
                 ELSE IF k = "request-state-wrong" /\ \E j \in 1 .. Len(o.reqs) : o.reqs[j] = -2
                      THEN "request-carries-state-of-another-iteration"   \* (concurrent iterations of one statement)
                 ELSE IF k = "request-state-wrong" /\ \E j \in 1 .. Len(o.reqs) : o.reqs[j] = -1
